@@ -55,6 +55,16 @@ class SchedConfig:
             for i in range(tape.draw(4, "pct_depth")):
                 self.pct_changes.add(tape.draw(300, f"pct_change{i}"))
 
+    @classmethod
+    def fixed(cls, strategy="uniform", p_switch=0.0, workers=1, serialize=False, kills=(), dup_budget=0, pct_changes=()):
+        """A configuration that is not drawn from the tape (used by enumerations)."""
+        self = cls.__new__(cls)
+        self.strategy, self.p_switch, self.workers, self.serialize = strategy, p_switch, workers, serialize
+        self.kills = [dict(k, fired=False, seen=0) for k in kills]
+        self.dup_budget = dup_budget
+        self.pct_changes = set(pct_changes)
+        return self
+
     def describe(self):
         return {
             "strategy": self.strategy,
